@@ -78,6 +78,10 @@ func UnwrapMap(bundle *bcrpb.Bundle) map[resource.Type][]fhir.Resource {
 	resourceMap := map[resource.Type][]fhir.Resource{}
 	resources := Unwrap(bundle)
 	for _, res := range resources {
+		if res == nil || !res.ProtoReflect().IsValid() {
+			// an entry without a resource (a DELETE request, a search outcome) has no type to file it under
+			continue
+		}
 		resourceType := resource.TypeOf(res)
 		resourceMap[resourceType] = append(resourceMap[resourceType], res)
 	}
